@@ -143,7 +143,7 @@ def check_case(names, align, ptr, res: JobResult, tier="quick"):
             got_offs = [T.fields[f.name].offset for f in st.fields]
             if len(T) != size or T.size != size:
                 viol("layout:size", f"{endian} len(T)={len(T)} model={size}", reader)
-            if (T.alignment or 1) != al:
+            if align and (T.alignment or 1) != al:
                 viol("layout:alignment", f"{endian} T.alignment={T.alignment} model={al}", reader)
             if got_offs != offs:
                 viol("layout:offsets", f"{endian} offsets={got_offs} model={offs}", reader)
